@@ -21,7 +21,8 @@ EXTENDS Aggs, AggTable, Factorize, TLC
 
 CONSTANTS MaxLen, MinLen, NLabels, SplitEvery, Names, Wide,
           Reindexes,     \* subset of {"none", "true", "false"}: the reindex= argument
-          ByDasks        \* subset of BOOLEAN: labels given as a chunked array
+          ByDasks,       \* subset of BOOLEAN: labels given as a chunked array
+          NLabels2       \* 0: one grouper only; > 0: calls with a SECOND grouper over labels 0..NLabels2-1 are explored too
 
 C == INSTANCE Cohorts
 P == INSTANCE Plan
@@ -31,24 +32,29 @@ AlphaF8 == IF Wide THEN {<<-2,1>>, <<1,1>>, <<3,1>>, <<0,0>>, <<1,0>>, <<-1,0>>}
 Rows == {i \in 1..Len(AggTable) : AggTable[i].dtype = "f8" /\ AggTable[i].name \in Names /\ AggTable[i].lawful}
 Req == [i \in 1..NLabels |-> NLabels - i]          \* requested labels, given in DESCENDING order (unsorted on purpose)
 
-VARIABLES vals, labs, cuts, cfg, phase, fact, plan, byCode, result
-vars == <<vals, labs, cuts, cfg, phase, fact, plan, byCode, result>>
+VARIABLES vals, labs, labs2, cuts, cfg, phase, fact, plan, byCode, result
+vars == <<vals, labs, labs2, cuts, cfg, phase, fact, plan, byCode, result>>
+Req2 == [i \in 1..NLabels2 |-> NLabels2 - i]
 
-Init == /\ vals = <<>> /\ labs = <<>> /\ cuts = <<>> /\ phase = "input"
+Init == /\ vals = <<>> /\ labs = <<>> /\ labs2 = <<>> /\ cuts = <<>> /\ phase = "input"
         /\ cfg = [row |-> 0] /\ fact = [groups |-> <<>>, codes |-> <<>>] /\ plan = [kind |-> "-"] /\ byCode = <<>> /\ result = <<>>
 
 Grow == /\ phase = "input" /\ Len(vals) < MaxLen
-        /\ \E v \in AlphaF8, l \in (0..(NLabels - 1)) \cup {-1}, cut \in BOOLEAN :
-             vals' = Append(vals, v) /\ labs' = Append(labs, l) /\ cuts' = Append(cuts, cut)
+        /\ \E v \in AlphaF8, l \in (0..(NLabels - 1)) \cup {-1}, cut \in BOOLEAN,
+              l2 \in (IF NLabels2 = 0 THEN {0} ELSE (0..(NLabels2 - 1)) \cup {-1}) :
+             vals' = Append(vals, v) /\ labs' = Append(labs, l) /\ labs2' = Append(labs2, l2) /\ cuts' = Append(cuts, cut)
         /\ UNCHANGED <<cfg, phase, fact, plan, byCode, result>>
 
 Call == /\ phase = "input" /\ Len(vals) >= MinLen /\ vals # <<>>
-        /\ \E r \in Rows, m \in {"none", "map-reduce", "cohorts", "blockwise"}, e \in BOOLEAN, s \in BOOLEAN, ri \in Reindexes, bd \in ByDasks :
+        /\ \E r \in Rows, m \in {"none", "map-reduce", "cohorts", "blockwise"}, e \in BOOLEAN, s \in BOOLEAN, ri \in Reindexes, bd \in ByDasks,
+              two \in (IF NLabels2 = 0 THEN {FALSE} ELSE BOOLEAN) :
              \* explicit blockwise with chunked labels is known findings F02/F06 (escapes with internal errors): left out
              /\ ~(bd /\ m = "blockwise")
-             /\ cfg' = [row |-> r, method |-> m, hasExpected |-> e, sort |-> s, reindex |-> ri, byDask |-> bd]
+             \* two groupers: the output is the full grid of label pairs, so a fill is part of the contract; numpy labels only
+             /\ (two => AggTable[r].userFill.some /\ ~bd)
+             /\ cfg' = [row |-> r, method |-> m, hasExpected |-> e, sort |-> s, reindex |-> ri, byDask |-> bd, two |-> two]
         /\ phase' = "called"
-        /\ UNCHANGED <<vals, labs, cuts, fact, plan, byCode, result>>
+        /\ UNCHANGED <<vals, labs, labs2, cuts, fact, plan, byCode, result>>
 
 agg == AggTable[cfg.row]
 
@@ -57,9 +63,25 @@ FactorizeStep ==
   /\ phase = "called"
   \* chunked labels without requested labels: the groups are discovered at compute time, block by block, and the
   \* combine re-groups them in ascending order whatever sort= says
-  /\ fact' = IF cfg.hasExpected THEN FactorizeExpected(labs, Req, cfg.sort) ELSE FactorizeFound(labs, cfg.sort \/ cfg.byDask)
-  /\ phase' = "factorized"
-  /\ UNCHANGED <<vals, labs, cuts, cfg, plan, byCode, result>>
+  /\ LET f1 == IF cfg.hasExpected THEN FactorizeExpected(labs, Req, cfg.sort) ELSE FactorizeFound(labs, cfg.sort \/ cfg.byDask)
+         f2 == IF cfg.hasExpected THEN FactorizeExpected(labs2, Req2, cfg.sort) ELSE FactorizeFound(labs2, cfg.sort)
+         n2 == Len(f2.groups)
+         \* named deviation: with several groupers an EMPTY label grid (one grouper without any kept label) is refused
+         \* by np.ravel_multi_index ("cannot unravel if shape has zero entries"), eager and chunked alike, whereas a single
+         \* grouper without any label returns an empty result
+         emptyGrid == cfg.two /\ (Len(f1.groups) = 0 \/ n2 = 0)
+     IN
+     /\ phase' = IF emptyGrid THEN "refused" ELSE "factorized"
+     /\ plan' = IF emptyGrid THEN P!Refuse("ValueError") ELSE plan
+     /\ fact' = IF ~cfg.two \/ emptyGrid THEN f1
+                ELSE \* _factorize_multiple + _ravel_factorized: row-major code of the pair, -1 when either label is dropped;
+                     \* output slots = the full grid (group token of a pair = l1 * NLabels2 + l2)
+                     [groups |-> [k \in 1..(Len(f1.groups) * n2) |-> f1.groups[(k - 1) \div n2 + 1] * NLabels2 + f2.groups[((k - 1) % n2) + 1]],
+                      codes |-> [i \in 1..Len(labs) |-> RavelFactorized(<<f1.codes[i], f2.codes[i]>>, <<Len(f1.groups), n2>>)]]
+  /\ UNCHANGED <<vals, labs, labs2, cuts, cfg, byCode, result>>
+
+\* the labels as ONE sequence of tokens (pairs raveled), for the reference
+LabsR == IF ~cfg.two THEN labs ELSE [i \in 1..Len(labs) |-> IF labs[i] < 0 \/ labs2[i] < 0 THEN -1 ELSE labs[i] * NLabels2 + labs2[i]]
 
 NG == Len(fact.groups)
 \* the caller's chunks ...
@@ -89,7 +111,7 @@ PlanStep ==
   /\ phase = "factorized"
   /\ plan' = P!Outcome(AbstractCfg)
   /\ phase' = IF plan'.kind = "ok" THEN "planned" ELSE "refused"
-  /\ UNCHANGED <<vals, labs, cuts, cfg, fact, byCode, result>>
+  /\ UNCHANGED <<vals, labs, labs2, cuts, cfg, fact, byCode, result>>
 
 \* ---------------------------------------------------------------- Execute
 Codes == [i \in 1..NG |-> i - 1]
@@ -164,14 +186,14 @@ Execute ==
                          [] plan.method = "cohorts"    -> CohortsByCode
                          [] plan.method = "blockwise"  -> BlockwiseByCode
           /\ phase' = "executed" /\ UNCHANGED plan
-  /\ UNCHANGED <<vals, labs, cuts, cfg, fact, result>>
+  /\ UNCHANGED <<vals, labs, labs2, cuts, cfg, fact, result>>
 
 \* ---------------------------------------------------------------- Finish
 Finish ==
   /\ phase = "executed"
   /\ result' = byCode          \* slot k of the output is code k-1: the codes were laid out in output order by Factorize
   /\ phase' = "done"
-  /\ UNCHANGED <<vals, labs, cuts, cfg, fact, plan, byCode>>
+  /\ UNCHANGED <<vals, labs, labs2, cuts, cfg, fact, plan, byCode>>
 
 Next == Grow \/ Call \/ FactorizeStep \/ PlanStep \/ Execute \/ Finish
 Spec == Init /\ [][Next]_vars
@@ -183,12 +205,15 @@ InScope == ~(cfg.method = "blockwise" /\ ~Confined)
 RefMinCount == IF agg.userFill.some /\ agg.minCount > 0 THEN agg.minCount ELSE -1
 Inv_Result ==
   (phase = "done" /\ InScope) =>
-     /\ LET want == RefGroups(labs, [some |-> cfg.hasExpected, v |-> Req], cfg.sort) IN
+     /\ LET w1 == RefGroups(labs, [some |-> cfg.hasExpected, v |-> Req], cfg.sort)
+            w2 == RefGroups(labs2, [some |-> cfg.hasExpected, v |-> Req2], cfg.sort)
+            want == IF ~cfg.two THEN w1
+                    ELSE [k \in 1..(Len(w1) * Len(w2)) |-> w1[(k - 1) \div Len(w2) + 1] * NLabels2 + w2[((k - 1) % Len(w2)) + 1]] IN
         IF Unknown /\ ~cfg.sort       \* order left open by the property for discovered groups with sort=False
         THEN Len(want) = Len(fact.groups) /\ {want[i] : i \in 1..Len(want)} = {fact.groups[i] : i \in 1..Len(want)}
         ELSE fact.groups = want
      /\ \A k \in 1..NG :
-          LET exp == RefSlot(agg.name, vals, labs, fact.groups[k], agg.userFill, RefMinCount, [ddof |-> agg.ddof, q |-> <<1, 2>>])
+          LET exp == RefSlot(agg.name, vals, LabsR, fact.groups[k], agg.userFill, RefMinCount, [ddof |-> agg.ddof, q |-> <<1, 2>>])
           IN Matches(exp, result[k]) \/ IsUnspec(result[k])
 Inv_CleanRefusal == phase = "refused" => plan.kind \in P!CleanKinds
 \* the automatic strategy is always one whose precondition holds
@@ -196,7 +221,7 @@ Inv_AutoPlanSound == (phase \in {"planned", "executed", "done"} /\ cfg.method = 
 
 \* spec -> code: every finished behaviour is printed and replayed into the real groupby_reduce (harness/composecase.py)
 Emit == (phase \in {"done", "refused"} /\ InScope) =>
-          PrintT(<<"BEH", vals, labs, cuts, cfg, fact.groups, plan, result, Planner.method, Sizes, fact.codes>>)
+          PrintT(<<"BEH", vals, labs, labs2, cuts, cfg, fact.groups, plan, result, Planner.method, Sizes, fact.codes>>)
 
 \* vacuity witnesses (each must be VIOLATED by some behaviour)
 W_Cohorts == ~(phase = "done" /\ plan.method = "cohorts")
